@@ -10,7 +10,11 @@ tie:    (a) translator: `Gen/AlgDone.lean` is regenerated from sigpy/alg.py + ap
         residual formulas regenerated from the source (`Gen/C15Resid.lean`), plain PDHG also against the
         older transcription `pdhgUpdate`; GradientMethod; NewtonsMethod with and without the backtracking
         line search (separable quartic objective, so that the loop really backtracks) against
-        `C15.newtonUpdateLS` (x, lamda2, the generated residual formula).
+        `C15.newtonUpdateLS` (x, lamda2, the generated residual formula);
+        (d) `Gen/C15Mach.lean` (harness/translate/gen_c15m.py): the `_update` bodies of PowerMethod, GradientMethod, AltMin,
+        AugmentedLagrangianMethod, ADMM, NewtonsMethod, GerchbergSaxton, `Alg.update`, the stopping block of SDMM and the
+        `App.run` loop are translator-generated; the real ADMM / AugmentedLagrangianMethod / AltMin run on Fractions and the
+        real SDMM's stopping block are compared with them (`mach` stream), GradientMethod / NewtonsMethod via `gmG`/`newtonG`.
 search: the statement itself on the real classes: canonical loop and App.run perform <= max_iter
         updates, counter +1 per update, run() returns what the alg holds; with tol = 0, when done()
         first turns true before max_iter one more update() on a deep copy must leave the solution
@@ -30,7 +34,7 @@ from harness.translate import gen as G
 from harness.translate import gen_c15
 
 PROPERTY = "C15"
-LEAN_MODULES = ["SigpyVerif.Props.C15", "SigpyVerif.Props.C12", "SigpyVerif.Props.C13"]
+LEAN_MODULES = ["SigpyVerif.Props.C15", "SigpyVerif.Props.C15Mach", "SigpyVerif.Props.C12", "SigpyVerif.Props.C13"]
 CLASSES = gen_c15.CLASSES
 THEOREMS = ["SigpyVerif.C15." + t for t in [
     "loop_bound", "ctr_iterate", "iter_counts_updates", "app_one_update_per_pass", "self_incr_zero",
@@ -39,6 +43,17 @@ THEOREMS = ["SigpyVerif.C15." + t for t in [
     "pdRescale_steps_pos", "early_stop_fixed_pdhg_general", "newtonResid_nonpos", "newtonLoop_zero_dir",
     "early_stop_fixed_newton_ls", "newton_ls_backtracks",
     "power_monotone", "power_normalised", "power_le_bound",
+    # Props/C15Mach.lean: about the generated machines of Gen/C15Mach.lean
+    "runLoop_exact", "iter_iterate", "run_count_general", "run_count_stop", "run_count_nostop", "whileFuel_eq_runLoop",
+    "app_run_one_update_per_pass", "app_pass_iter", "app_run_exact", "app_run_bound", "runLoopR_bound",
+    "algUpdate_iter", "algUpdateR_iter", "upd_iter_PowerMethod", "upd_iter_GradientMethod", "upd_iter_AltMin",
+    "upd_iter_AugmentedLagrangianMethod", "upd_iter_ADMM", "upd_iter_NewtonsMethod", "upd_iter_GerchbergSaxton",
+    "update_iter_all", "done_decomp", "no_early_stop", "run_exact_PowerMethod", "run_exact_AltMin",
+    "run_exact_AugmentedLagrangianMethod", "run_exact_ADMM", "run_exact_GradientMethod", "run_exact_ConjugateGradient",
+    "run_bound_NewtonsMethod", "run_bound_GerchbergSaxton", "stdOps_std", "norm_div_nonpos", "early_stop_fixed_gm_gen",
+    "gm_tol_bound", "early_stop_fixed_gm_accel_gen", "whileFuel_inv", "whileFuel_of_not_cond",
+    "early_stop_fixed_newton_gen", "newton_tol_bound", "early_stop_fixed_gs", "foldl_stop_eq", "sdmm_stop_iff_partial",
+    "pdhg_tol_bound",
 ] + ["loop_bound_" + c for c in CLASSES]] + ["SigpyVerif.C12.cg_early_stop_fixed", "SigpyVerif.C12.cg_breakdown",
                                               "SigpyVerif.C12.iter_counts_updates",
                                               "SigpyVerif.C13.pdhg_fixed_point_iff_saddle_diag",
@@ -49,6 +64,7 @@ THEOREMS = ["SigpyVerif.C15." + t for t in [
 KEY_PDHG = "C15:PDHG:primal-only-resid"
 KEY_GM = "C15:GradientMethod:accelerated-stall"
 KEY_GS = "C15:GerchbergSaxton:double-increment"
+KEY_SDMM = "C15:SDMM:early-stop"
 
 
 TIMEOUTS = dict(n=0)  # real loops that did not terminate in this run; after 3 the streams stop early
@@ -75,7 +91,7 @@ class time_limit:
 
 
 def translate(ctx):
-    G.regenerate(ctx, ["AlgDone", "C12", "C13", "C15Resid"])
+    G.regenerate(ctx, ["AlgDone", "C12", "C13", "C15Resid", "C15Mach"])
 
 
 # ---- small problem instances of every Alg subclass ---------------------------------------------
@@ -255,6 +271,19 @@ def make(rng, cls, max_iter, spec=None):
         f_ = lambda v: float(0.5 * v @ (Q @ v) - c @ v)  # noqa: E731
         a = SA.NewtonsMethod(lambda v: Q @ v - c, lambda v: (lambda w: Qi @ w), x, beta=beta, f=f_, max_iter=max_iter, tol=0)
         return dict(alg=a, sol=lambda: [a.x], spec=s)
+    if cls == "SDMM":
+        m = n + 1
+        Am = np.array([[float(pr.randint(-2, 2)) for _ in range(n)] for _ in range(m)]) + np.vstack([np.eye(n), np.zeros((1, n))])
+        d = np.array([[float(pr.randint(-3, 3))] for _ in range(m)])
+        nL = s.setdefault("nL", pr.randint(0, 2))
+        Ls = [np.eye(n) if pr.random() < 0.5 else np.array([[float(pr.randint(-1, 1)) for _ in range(n)] for _ in range(n)])
+              for _ in range(nL)]
+        cs = [s.setdefault("c%d" % i, pr.choice([100.0, 100.0, 0.5])) for i in range(nL)]
+        cn = s.setdefault("c_norm", pr.choice([None, None, 50.0]))
+        a = SA.SDMM(sp.linop.MatMul((n, 1), Am), d, s.setdefault("lam", pr.choice([0.1, 1.0])), Ls, cs, s.setdefault("mu", pr.choice([1.0, 0.5])),
+                    [1.0] * nL, 1.0, 1.0, eps_pri=s.setdefault("eps_pri", 0), eps_dual=s.setdefault("eps_dual", 0), c_max=None,
+                    c_norm=cn, max_cg_iter=s.setdefault("cg", pr.choice([3, 30])), max_iter=max_iter)
+        return dict(alg=a, sol=lambda: [a.x], spec=s)
     if cls == "GerchbergSaxton":
         m = n + 2
         A = sp.linop.MatMul((n, 1), r.randn(m, n) + 1j * r.randn(m, n))
@@ -267,7 +296,7 @@ def make(rng, cls, max_iter, spec=None):
 
 
 RUN_CLASSES = ["PowerMethod", "GradientMethod", "ConjugateGradient", "PrimalDualHybridGradient", "AltMin",
-               "AugmentedLagrangianMethod", "ADMM", "NewtonsMethod", "GerchbergSaxton"]
+               "AugmentedLagrangianMethod", "ADMM", "SDMM", "NewtonsMethod", "GerchbergSaxton"]
 
 
 def fields(a):
@@ -419,7 +448,8 @@ def _stepvec(tok):
 
 
 STEP_CLASSES = ["PrimalDualHybridGradient", "GradientMethod", "NewtonsMethod"]
-STEP_MODEL = {"pdhg": "pdhgUpdate", "pdhgG": "pdhgUpdateG", "gm": "gmUpdate", "newton": "newtonUpdateLS"}
+STEP_MODEL = {"pdhg": "pdhgUpdate", "pdhgG": "pdhgUpdateG", "gm": "gmUpdate", "newton": "newtonUpdateLS",
+              "gmG": "Gen.C15M.updGradientMethod", "newtonG": "Gen.C15M.updNewtonsMethod"}
 
 
 def step_stream(ctx, n_inst):
@@ -465,6 +495,10 @@ def step_stream(ctx, n_inst):
                     fr(told), fr(tnew))
                 obs = dict(x=a.x.copy(), z=(a.z.copy() if a.accelerate else None), resid2=float(a.resid) ** 2)
                 op = "gm"
+                # the same update on the GENERATED machine (Gen.C15M.updGradientMethod under the generated Alg.update)
+                lines.append(ln.replace("C15 gm ", "C15 gmG ", 1))
+                meta.append((cls, s, _k, dict(x=a.x.copy(), z=(a.z.copy() if a.accelerate else None), resid=float(a.resid),
+                                              t=(float(a.t) if a.accelerate else None)), "gmG"))
             else:
                 if s["nfam"] != "quartic":
                     break   # the Newton step model is exercised on the separable quartic (exact rational f, gradf, H^-1)
@@ -478,11 +512,17 @@ def step_stream(ctx, n_inst):
                     break
                 obs = dict(x=a.x.copy(), resid=float(a.residual), lamda2=float(a.lamda2))
                 op = "newton"
+                lines.append(ln)
+                meta.append((cls, s, _k, obs, op))
+                ln, op = ln.replace("C15 newton ", "C15 newtonG ", 1), "newtonG"   # the generated machine, judged by the same margin
             lines.append(ln)
             meta.append((cls, s, _k, obs, op))
     bad, only_resid = {c: 0 for c in STEP_CLASSES}, {c: True for c in STEP_CLASSES}
+    margin_skip = False
     for ln, (cls, s, k, obs, op), rep in zip(lines, meta, ctx.driver(lines)):
         ctx.case(ln, sample=dict(line=ln[:160], reply=rep[:100]) if ctx.evaluations % 41 == 0 else None)
+        if op == "newtonG" and margin_skip:   # the preceding `newton` line of the same update was a near tie
+            continue
         ctx.count("step:%s:%s:%s" % (cls, op, s.get("fam") or s.get("nfam")) + (
             ":%s:%s" % (s["acc"], "array" if s["arr"] else "scalar") if op == "pdhgG" else "")
             + (":beta=%s" % s["beta"] if op == "newton" else ""))
@@ -492,8 +532,20 @@ def step_stream(ctx, n_inst):
             ctx.disagree("step", dict(spec=s, update=k + 1), "state", rep)
             continue
         m = _kv(rep)
-        if op == "newton" and float(Fraction(m["margin"])) < 1e-6 * (1 + abs(float(Fraction(m["lamda2"])))):
+        if op == "newton":
+            margin_skip = float(Fraction(m["margin"])) < 1e-6 * (1 + abs(float(Fraction(m["lamda2"]))))
+        if op == "newton" and margin_skip:
             ctx.count("step:NewtonsMethod:near-tie-skipped")   # the float and the exact line-search test may differ
+            continue
+        if op == "newtonG" and m.get("raised") != "0":
+            bad[cls] += 1
+            only_resid[cls] = False
+            ctx.disagree("step", dict(spec=s, update=k + 1), "an update without exception", rep)
+            continue
+        if op in ("gmG", "newtonG") and m.get("iter") != "1":
+            bad[cls] += 1
+            only_resid[cls] = False
+            ctx.disagree("step", dict(spec=s, update=k + 1), "iter=1 after one generated Alg.update from 0", rep)
             continue
         if op == "newton":
             ctx.count("step:NewtonsMethod:backtracks=%s" % ("0" if m["alpha"] == "1" else ">0"))
@@ -501,7 +553,7 @@ def step_stream(ctx, n_inst):
         for f, v in obs.items():
             if v is None:
                 continue
-            if f in ("resid2", "resid", "lamda2"):
+            if f in ("resid2", "resid", "lamda2", "t"):
                 w = float(Fraction(m[f]))
                 if abs(v - w) > 1e-9 * (1 + abs(w)):
                     diffs.append("%s real=%r model=%r" % (f, v, w))
@@ -523,14 +575,179 @@ def step_stream(ctx, n_inst):
     return bad, only_resid
 
 
+
+# ---- (d) the GENERATED machines (Gen/C15Mach.lean) against the real classes ---------------------
+def _fq(v):
+    f = Fraction(v)
+    return str(f.numerator) if f.denominator == 1 else "%d/%d" % (f.numerator, f.denominator)
+
+
+def _fql(v):
+    return ",".join(_fq(z) for z in v) if len(v) else "-"
+
+
+def _obj(vals):
+    a = np.empty(len(vals), dtype=object)
+    a[:] = [Fraction(v) for v in vals]
+    return a
+
+
+class _NormRecorder:
+    """stands in for `SDMM.device`: numpy with `linalg.norm` recorded (the arguments are kept alive so that their identities
+    stay distinct)"""
+
+    class _LA:
+        def __init__(self, rec):
+            self._rec = rec
+
+        def norm(self, v, *a, **k):
+            r = np.linalg.norm(v, *a, **k)
+            self._rec.append((v, float(r)))
+            return r
+
+        def __getattr__(self, n):
+            return getattr(np.linalg, n)
+
+    class _XP:
+        def __init__(self, rec):
+            self.linalg = _NormRecorder._LA(rec)
+
+        def __getattr__(self, n):
+            return getattr(np, n)
+
+    def __init__(self):
+        self.calls = []
+        self.xp = _NormRecorder._XP(self.calls)
+
+    def __enter__(self):
+        return self
+
+    def __exit__(self, *a):
+        return False
+
+
+def mach_stream(ctx, n_inst):
+    """ADMM / AugmentedLagrangianMethod / AltMin: the REAL classes on numpy object arrays of Fractions (exact rational
+    arithmetic in the real code) stepped against the generated machines, equality of every state entry after every update;
+    SDMM: the real class stepped, the norms its stopping block computes are recorded and fed to the generated block."""
+    from sigpy import alg as SA
+    rng = ctx.rng
+    lines, meta = [], []
+    F = Fraction
+    for _ in range(n_inst):
+        kind = rng.choice(["ADMM", "ADMM", "AugmentedLagrangianMethod", "AugmentedLagrangianMethod", "AltMin", "SDMM", "SDMM"])
+        n = rng.randint(1, 3)
+        rq = lambda: F(rng.randint(-6, 6), rng.choice([1, 2, 3, 4]))  # noqa: E731
+        nupd = rng.randint(1, 3)
+        if kind == "ADMM":
+            c0, c = _obj([rq() for _ in range(n)]), _obj([rq() if rng.random() < 0.5 else 0 for _ in range(n)])
+            x, z, u = (_obj([rq() for _ in range(n)]) for _ in range(3))
+            px, qz = [rq() for _ in range(3)], [rq() for _ in range(2)]
+            lam, ca, cb = abs(rq()), rq(), rq()
+
+            def mx(x=x, z=z, u=u, c0=c0, px=px):
+                x[:] = px[0] * c0 + px[1] * z + px[2] * u
+
+            def mz(x=x, z=z, u=u, qz=qz, lam=lam):
+                w = qz[0] * x + qz[1] * u
+                z[:] = [(t - lam if t > lam else (t + lam if t < -lam else F(0))) for t in w]
+            a = SA.ADMM(mx, mz, x, z, u, lambda v, ca=ca: ca * v, lambda v, cb=cb: cb * v, c, max_iter=nupd + 1)
+            ln0 = "C15 admm c0=%s x=%s z=%s u=%s px=%s qz=%s lam=%s a=%s b=%s c=%s" % (
+                _fql(c0), _fql(x), _fql(z), _fql(u), _fql(px), _fql(qz), _fq(lam), _fq(ca), _fq(cb), _fql(c))
+            for k in range(1, nupd + 1):
+                a.update()
+                lines.append(ln0 + " k=%d" % k)
+                meta.append((kind, "ok iter=%d x=%s z=%s u=%s" % (a.iter, _fql(a.x), _fql(a.z), _fql(a.u))))
+        elif kind == "AugmentedLagrangianMethod":
+            c0 = _obj([rq() for _ in range(n)])
+            x, u, v = (_obj([rq() for _ in range(n)]) for _ in range(3))
+            u[:] = [abs(t) for t in u]
+            px = [rq() for _ in range(3)]
+            mu = abs(rq()) + F(1, 4)
+            gk, hk = rng.choice(["none", "aff"]), rng.choice(["none", "aff"])
+            g1, g0, h1, h0 = rq(), rq(), rq(), rq()
+
+            def minL(x=x, u=u, v=v, c0=c0, px=px):
+                x[:] = px[0] * c0 + px[1] * u + px[2] * v
+            a = SA.AugmentedLagrangianMethod(minL, (lambda t, g1=g1, g0=g0: g1 * t + g0) if gk == "aff" else None,
+                                             (lambda t, h1=h1, h0=h0: h1 * t + h0) if hk == "aff" else None, x, u, v, mu,
+                                             max_iter=nupd + 1)
+            ln0 = "C15 alm c0=%s x=%s u=%s v=%s px=%s g=%s h=%s mu=%s" % (
+                _fql(c0), _fql(x), _fql(u), _fql(v), _fql(px), ("aff:%s:%s" % (_fq(g1), _fq(g0))) if gk == "aff" else "none",
+                ("aff:%s:%s" % (_fq(h1), _fq(h0))) if hk == "aff" else "none", _fq(mu))
+            for k in range(1, nupd + 1):
+                a.update()
+                lines.append(ln0 + " k=%d" % k)
+                meta.append((kind, "ok iter=%d x=%s u=%s v=%s" % (a.iter, _fql(a.x), _fql(a.u), _fql(a.v))))
+        elif kind == "AltMin":
+            va, vb = _obj([rq() for _ in range(n)]), _obj([rq() for _ in range(n)])
+            m1, m2 = [rq(), rq()], [rq(), rq()]
+
+            def f1(va=va, vb=vb, m1=m1):
+                va[:] = m1[0] * vb + m1[1]
+
+            def f2(va=va, vb=vb, m2=m2):
+                vb[:] = m2[0] * va + m2[1]
+            a = SA.AltMin(f1, f2, max_iter=nupd + 1)
+            ln0 = "C15 altmin a=%s b=%s m1=%s m2=%s" % (_fql(va), _fql(vb), _fql(m1), _fql(m2))
+            for k in range(1, nupd + 1):
+                a.update()
+                lines.append(ln0 + " k=%d" % k)
+                meta.append((kind, "ok iter=%d a=%s b=%s" % (a.iter, _fql(va), _fql(vb))))
+        else:
+            inst = make(rng, "SDMM", 6, dict(cls="SDMM", max_iter=6, seed=rng.randint(0, 2 ** 31),
+                                             eps_pri=rng.choice([0, 1e-5, 0.25]), eps_dual=rng.choice([0, 1e-2, 0.25])))
+            a, sp_ = inst["alg"], inst["spec"]
+            rec = _NormRecorder()
+            a.device = rec
+            nblk = len(a.L) + (a.c_norm is not None) + (a.c_max is not None)
+            for k in range(1, nupd + 1):
+                del rec.calls[:]
+                try:
+                    with np.errstate(all="ignore"):
+                        a.update()
+                except Exception as e:  # noqa
+                    ctx.disagree("mach", dict(spec=sp_, update=k), "raised %r" % (e,), "an update")
+                    break
+                order, vals = [], {}
+                for arr, val in rec.calls:
+                    if id(arr) not in vals:
+                        order.append(id(arr))
+                    vals[id(arr)] = val
+                last = [vals[i] for i in order[len(order) - 2 * nblk:]] if nblk else []
+                if len(last) != 2 * nblk or any(not math.isfinite(t) for t in last):
+                    ctx.disagree("mach", dict(spec=sp_, update=k), "%d norm arguments recorded" % len(order), "%d" % (2 * nblk))
+                    break
+                pairs = ["%s:%s" % (fr(last[2 * i]), fr(last[2 * i + 1])) for i in range(nblk)]
+                nl = len(a.L)
+                rest = pairs[nl:]
+                nrm = rest.pop(0) if a.c_norm is not None else "none"
+                mxp = rest.pop(0) if a.c_max is not None else "none"
+                lines.append("C15 sdmmstop epspri=%s epsdual=%s rs=%s norm=%s max=%s" % (
+                    fr(a.eps_pri), fr(a.eps_dual), ",".join(pairs[:nl]) or "-", nrm, mxp))
+                meta.append((kind, "ok stop=%d" % int(bool(a.stop))))
+    bad = {k: 0 for k in ("ADMM", "AugmentedLagrangianMethod", "AltMin", "SDMM")}
+    for ln, (kind, want), rep in zip(lines, meta, ctx.driver(lines)):
+        ctx.case(ln, sample=dict(line=ln[:160], reply=rep[:100]) if ctx.evaluations % 37 == 0 else None)
+        ctx.count("mach:%s" % kind)
+        if rep != want:
+            bad[kind] += 1
+            ctx.disagree("mach", dict(line=ln), want, rep)
+    return bad
+
+
 def correspond(ctx):
     ctx.rule = ("trace: (class, small random problem, max_iter in {0,1,2,5}, random interleaving of done()/update() with "
                 "max_iter+2 updates) -> counter after each update and verdict of each done() vs the Lean counter machine "
                 "with the generated _done; apprun: App.run vs Lean runLoop; step: one update of PDHG (constant theta / "
                 "gamma_primal / gamma_dual, scalar / array steps: x,u,x_ext,tau,sigma,resid^2), GradientMethod (x,z,resid^2), "
                 "NewtonsMethod with line search on a separable quartic (x, lamda2, residual; cases whose line-search test is "
-                "within 1e-6 of a tie are skipped) vs the Lean transcription in exact rationals at 1e-9; distinct by "
-                "protocol line; every case performs at least one call")
+                "within 1e-6 of a tie are skipped) vs the Lean transcription in exact rationals at 1e-9, and the same GradientMethod / "
+                "NewtonsMethod updates vs the GENERATED machines (gmG / newtonG); mach: the real ADMM / AugmentedLagrangianMethod / "
+                "AltMin on numpy object arrays of random Fractions (affine callbacks, soft threshold, g/h None or affine) vs the "
+                "generated machines, exact equality of every state entry after each of 1-3 updates; the real SDMM stepped with its "
+                "linalg.norm calls recorded, generated stopping block vs self.stop; distinct by protocol line; every case performs "
+                "at least one call")
     q = ctx.tier == "quick"
     a = gen_c15.analyse()
     gs = a["classes"]["GerchbergSaxton"]["self_incr"]
@@ -548,13 +765,22 @@ def correspond(ctx):
         ctx.oblige("correspondence:C15.step.%s" % cls, "correspondence", bad[cls] == 0,
                    "%d updates differ from the Lean transcription%s" % (
                        bad[cls], (" (only in the residual fed to _done) explained-by:" + key) if bad[cls] and only_resid[cls] else ""))
+    badm = mach_stream(ctx, 60 if q else 400)
+    for kind, n_bad in badm.items():
+        ctx.oblige("correspondence:C15.mach.%s" % kind, "correspondence", n_bad == 0,
+                   "%d updates of the real %s differ from the generated machine (Gen.C15M)%s" % (
+                       n_bad, kind, " [SDMM: the generated stopping block on the recorded norms]" if kind == "SDMM" else ""))
     ctx.assumptions += [
         "PDHG: every branch of the step-size block and scalar or array steps (pdhgUpdateG = C13's generated pdStep + the "
         "generated residual formulas); NewtonsMethod: beta = 1 and the backtracking line search (newtonUpdateLS, loop with "
         "fuel; the statement order of NewtonsMethod._update is transcribed, only its residual formula is generated)",
         "array steps enter early_stop_fixed_pdhg_general as positive operators (C13.StepOp) and the prox maps through "
         "their characterisation in the step-weighted inner product (C13.IsProxW)",
-        "SDMM: only its counter/_done logic is covered (generated definitions + loop_bound_SDMM), no run-time traces",
+        "generated machines (Gen/C15Mach.lean): callbacks of AltMin / ADMM / AugmentedLagrangianMethod are transformers of the class's "
+        "data record that leave the counter alone; arrays are values except where the source aliases them (object model of "
+        "gen_c15m); GerchbergSaxton's inner solver is C12's generated ConjugateGradient with value semantics for x",
+        "SDMM: counter/_done logic, run-time traces and the generated STOPPING BLOCK of _update (sdmm_stop_iff_partial) only; the "
+        "rest of SDMM._update (prox_muf with its inner CG, the aliasing `v = self.x`, `z_old = self.z`) is not modelled",
         "power_le_bound takes an operator bound L; that the least bound of a Hermitian PSD operator is its largest "
         "eigenvalue (spectral theorem) is not re-proved, the search oracle checks max_eig <= lambda_max numerically",
     ]
@@ -564,6 +790,8 @@ def correspond(ctx):
 def key_for(cls, spec, what):
     if what == "counter" and cls == "GerchbergSaxton":
         return KEY_GS
+    if what == "early-stop" and cls == "SDMM":
+        return KEY_SDMM
     if what == "early-stop" and cls == "PrimalDualHybridGradient":
         return KEY_PDHG
     if what == "early-stop" and cls == "GradientMethod" and spec.get("accel"):
